@@ -1419,7 +1419,8 @@ func nonNilContainer(v ssa.Value, depth int) bool {
 		instrsOf(g, func(in ssa.Instruction) {
 			if ret, ok := in.(*ssa.Return); ok {
 				n++
-				if !nonNilContainer(retResults(ret)[0], depth+1) {
+				rv := retResults(ret)[0]
+				if !nonNilContainer(rv, depth+1) && !knownNonNilAt(rv, ret) {
 					all = false
 				}
 			}
@@ -1506,4 +1507,45 @@ func checkContextMapsAllocated(w *World, r *Report) {
 		})
 	}
 	r.floor("stores into tables of a render context", n, 3)
+}
+
+// knownNonNilAt: the instruction is reached only over the non-nil edge of a test `v == nil` / `v != nil`
+func knownNonNilAt(v ssa.Value, at ssa.Instruction) bool {
+	v = unspill(v)
+	b := at.Block()
+	for d := b.Idom(); d != nil; d = d.Idom() {
+		c, trueIdx, ok := ifCond(d)
+		if !ok {
+			continue
+		}
+		bo, ok := c.(*ssa.BinOp)
+		if !ok || (bo.Op != token.EQL && bo.Op != token.NEQ) {
+			continue
+		}
+		var side ssa.Value
+		if isNilConst(bo.Y) {
+			side = bo.X
+		} else if isNilConst(bo.X) {
+			side = bo.Y
+		}
+		if side == nil || unspill(side) != v {
+			continue
+		}
+		nonNil := trueIdx
+		if bo.Op == token.EQL {
+			nonNil = 1 - trueIdx
+		}
+		s := d.Succs[nonNil]
+		if len(s.Preds) == 1 && (s == b || s.Dominates(b)) {
+			return true
+		}
+		// `if v == nil { return … }` — the other successor is the join everything else flows through
+		other := d.Succs[1-nonNil]
+		if len(other.Instrs) > 0 {
+			if _, isRet := other.Instrs[len(other.Instrs)-1].(*ssa.Return); isRet && other != b && (s == b || s.Dominates(b) || blockReaches(s, b)) && !blockReaches(other, b) {
+				return true
+			}
+		}
+	}
+	return false
 }
